@@ -9,7 +9,8 @@ Driver for stream `fees` (C07). One op per line, one observation per line.
   parse <script-hex>                         -> sig | multisig <m> <n> | none
   calc <base> <script-hex>                   -> <fee> <size>                (`calculate`)
   wsize <inv-hex> <ver-hex>                  -> <len of the encoded witness>
-  wcost <base> <gorgon> <inv-hex> <ver-hex>  -> halt <datoshi> <depth> | fault   (`runWitness`, no limit, every signature valid)
+  wcost <base> <gorgon> <pairs-hex> <inv-hex> <ver-hex>
+                                             -> halt <datoshi> <depth> | fault   (`runWitness`, no limit; pairs = valid key‖signature, 97 bytes each)
   vw <base> <maxvergas> <gorgon> <hashok> <gas> <pairs-hex (key‖sig, 97 bytes each)> <inv-hex> <ver-hex>
                                              -> ok <gas> | invsig <gas> | fail   (`verifyWitness`)
   admit <chain> <rec> <tx> <signers> <attrs> <pool>   -> ok | err:<class>      (`Admission.admitWire`)
@@ -237,13 +238,14 @@ def step (s : Unit) (ws : List String) : Unit × String :=
     match Hex.decode i, Hex.decode v with
     | some i, some v => (s, s!"{(encodeWitness i v).length}")
     | _, _ => (s, "bad-op")
-  | ["wcost", base, g, i, v] =>
-    match base.toNat?, bit g, Hex.decode i, Hex.decode v with
-    | some base, some g, some i, some v =>
-      match runWitness ⟨base, none, g, keyOk, fun _ _ => true⟩ i v with
+  | ["wcost", base, g, pairs, i, v] =>
+    match base.toNat?, bit g, Hex.decode pairs, Hex.decode i, Hex.decode v with
+    | some base, some g, some pairs, some i, some v =>
+      let ps := chunks 97 pairs.length pairs
+      match runWitness ⟨base, none, g, keyOk, fun k sg => ps.contains (k ++ sg)⟩ i v with
       | some st => (s, s!"halt {picoToDatoshi st.gas} {st.stack.length}")
       | none => (s, "fault")
-    | _, _, _, _ => (s, "bad-op")
+    | _, _, _, _, _ => (s, "bad-op")
   | ["vw", base, mvg, g, hok, gas, pairs, i, v] =>
     match base.toNat?, mvg.toNat?, bit g, bit hok, gas.toNat?, Hex.decode pairs, Hex.decode i, Hex.decode v with
     | some base, some mvg, some g, some hok, some gas, some pairs, some i, some v =>
